@@ -54,6 +54,7 @@ type op struct {
 	enabled   func() bool
 	cases     []selCase // for send/recv (1 case) and select
 	hasDef    bool
+	waiting   bool // second phase: registered as a waiter on its channel(s)
 	completed bool // a partner finished this operation for us
 	chosen    int  // case index chosen by the partner
 }
